@@ -231,7 +231,12 @@ pub fn reorg_case(w: &World, before: &PoolDump, after: &PoolDump, ch: &Change) -
     after_l.sort();
     let exp = w.cfg.expiry_hours as u64 * 3_600_000;
     let cutoff = now.saturating_sub(exp);
-    let precise = crate::pred::aggregates_consistent(before) && w.racing_since_sync == 0;
+    // the membership-level model has no cell-ref parents (a spender of a cell is a child of the pooled txs
+    // that use the cell as a dep): cases with dep edges are predicate-only
+    let no_deps = before.entries.iter().chain(after.entries.iter()).all(|e| e.related_deps.is_empty())
+        && ch.detached.iter().all(|b| b.transactions().iter().skip(1).all(|t| t.cell_deps().len() <= 1));
+    let precise = crate::pred::aggregates_consistent(before) && crate::pred::aggregates_consistent(after) && w.racing_since_sync == 0 && no_deps
+        && w.orphan_cause.is_empty();
     Some(ReorgCase {
         max_anc: before.max_ancestors_count as u64,
         max_size: w.cfg.max_tx_pool_size as u64,
